@@ -94,10 +94,11 @@ Theorem C11_envelope_roundtrip :
   (forall pt id payload, payload <> [] -> pt <> Some TRouter ->
      one_message (dealer_prepare false payload) /\
      router_recv false pt id (dealer_prepare false payload) = (true, id) :: norm_flags payload) /\
-  (* ROUTER -> DEALER (send_multipart; strategy Default or Dealer) *)
+  (* ROUTER -> DEALER (send_multipart; strategy Default or Dealer): for EVERY flag pattern the application left
+     on the payload frames the contents arrive unchanged, as one message, flags = MORE on all but the last *)
   (forall s idm payload, s = SDefault \/ s = SDealer -> snd idm <> [] ->
-     dealer_process_incoming false (clear_last (strat_prepare s false idm payload)) = clear_last payload /\
-     (more_ok payload -> one_message (clear_last (strat_prepare s false idm payload)))) /\
+     dealer_process_incoming false (router_wire s false idm payload) = norm_flags payload /\
+     one_message (router_wire s false idm payload)) /\
   (* ROUTER -> DEALER (send part by part) *)
   (forall mandatory conn hint m id u s payload,
      id <> [] -> fget id m = Some (u, s) -> conn u = COk -> payload <> [] -> more_ok payload ->
@@ -107,7 +108,8 @@ Theorem C11_envelope_roundtrip :
   (forall pt id msg, pt <> Some TRouter -> router_recv false pt id (req_send msg) = [(true, id); no_more msg]) /\
   (* ROUTER -> REQ (send_multipart; strategy Req) *)
   (forall manual idm payload,
-     req_recv_multipart (clear_last (strat_prepare SReq manual idm payload)) = clear_last payload) /\
+     req_recv_multipart (router_wire SReq manual idm payload) = norm_flags payload /\
+     one_message (router_wire SReq manual idm payload)) /\
   (* REQ -> REP -> REQ *)
   (forall msg, rep_extract (req_send msg) = ([delim true], [no_more msg])) /\
   (forall reply, reply <> [] -> req_recv_multipart (rep_send_multipart [delim true] reply) = norm_flags reply) /\
@@ -120,8 +122,14 @@ Proof.
   exact (conj (fun pt id payload H P => conj (dealer_prepare_one_message false payload H) (rt_dealer_router pt id payload H P))
         (conj (fun s idm payload S I => conj (rt_router_dealer s idm payload S I) (router_wire_auto_one_message s idm payload S))
         (conj rt_router_parts_dealer
-        (conj rt_req_router (conj rt_router_req (conj rt_req_rep (conj rt_rep_req (conj rt_dealer_rep (conj rt_rep_dealer rt_dealer_dealer))))))))).
+        (conj rt_req_router (conj (fun manual idm payload => conj (rt_router_req manual idm payload) (router_wire_req_one_message manual idm payload)) (conj rt_req_rep (conj rt_rep_req (conj rt_dealer_rep (conj rt_rep_dealer rt_dealer_dealer))))))))).
 Qed.
+(* what send_multipart does to the flags: whatever the application left on identity and payload frames, the wire
+   carries MORE on every frame but the last (so it is one message whenever it is non-empty) *)
+Theorem C11_router_wire_flags : forall s manual idm payload,
+  more_ok (router_wire s manual idm payload) /\
+  (strat_prepare s manual idm payload <> [] -> one_message (router_wire s manual idm payload)).
+Proof. exact (fun s manual idm payload => conj (router_wire_flags s manual idm payload) (router_wire_one_message s manual idm payload)). Qed.
 (* frame contents survive flag normalisation *)
 Theorem C11_normalisation_keeps_contents : forall l,
   datas (norm_flags l) = datas l /\ datas (clear_last l) = datas l.
@@ -133,22 +141,22 @@ Theorem C11_empty_payload_becomes_one_empty_frame :
 Proof. exact (conj rt_dealer_router_nil rt_rep_nil). Qed.
 (* REQ.recv() hands out only the first frame of a reply *)
 Theorem C11_req_recv_first_frame_only : forall manual idm x t,
-  req_recv (clear_last (strat_prepare SReq manual idm (x :: t))) = hd (false, []) (clear_last (x :: t)).
+  req_recv (router_wire SReq manual idm (x :: t)) = hd (false, []) (norm_flags (x :: t)).
 Proof. exact rt_router_req_recv. Qed.
 
 (* ---- AUTO_DELIMITER off at one or both ends: stated as what they are ---- *)
 Theorem C11_raw_passthrough :
   (forall pt id payload, datas (router_recv true pt id (dealer_prepare true payload)) = id :: datas payload) /\
-  (forall idm payload, dealer_process_incoming true (clear_last (strat_prepare SDealer true idm payload)) = clear_last payload) /\
-  (forall idm x t, dealer_process_incoming true (clear_last (strat_prepare SDefault true idm (x :: t))) = with_more idm :: clear_last (x :: t)).
+  (forall idm payload, dealer_process_incoming true (router_wire SDealer true idm payload) = norm_flags payload) /\
+  (forall idm x t, dealer_process_incoming true (router_wire SDefault true idm (x :: t)) = with_more idm :: norm_flags (x :: t)).
 Proof. exact (conj raw_dealer_router_datas (conj raw_router_dealer_strategy raw_router_default_strategy)). Qed.
 Theorem C11_mixed_dealer_manual_router_auto : forall pt id f t, pt <> Some TRouter ->
   (fempty f = false -> datas (router_recv false pt id (dealer_prepare true (f :: t))) = id :: datas (f :: t)) /\
   (fempty f = true -> datas (router_recv false pt id (dealer_prepare true (f :: t))) = id :: datas t).
 Proof. exact (fun pt id f t P => conj (mixed_dealer_manual_router_auto_kept pt id f t P) (mixed_dealer_manual_router_auto_lost pt id f t P)). Qed.
 Theorem C11_mixed_router_manual_dealer_auto : forall idm payload,
-  dealer_process_incoming false (clear_last (strat_prepare SDealer true idm payload)) =
-  match clear_last payload with
+  dealer_process_incoming false (router_wire SDealer true idm payload) =
+  match norm_flags payload with
   | [] => []
   | f0 :: rest => if fempty f0 then rest
                   else match rest with [] => [] | f1 :: rest' => if fempty f1 then rest' else rest end
@@ -156,15 +164,14 @@ Theorem C11_mixed_router_manual_dealer_auto : forall idm payload,
 Proof. exact mixed_router_manual_dealer_auto. Qed.
 Theorem C11_mixed_router_manual_dealer_auto_loses_first_frame :
   exists idm payload,
-    dealer_process_incoming false (clear_last (strat_prepare SDealer true idm payload)) <> clear_last payload.
+    dealer_process_incoming false (router_wire SDealer true idm payload) <> norm_flags payload.
 Proof. exact mixed_router_manual_dealer_auto_lost. Qed.
 Theorem C11_manual_router_with_app_delimiter : forall idm body,
-  dealer_process_incoming false (clear_last (strat_prepare SDealer true idm (delim true :: body))) =
-  match body with [] => [] | _ => clear_last body end.
+  dealer_process_incoming false (router_wire SDealer true idm (delim true :: body)) = norm_flags body.
 Proof. exact manual_router_app_delimiter. Qed.
 Theorem C11_mixed_router_manual_default_strategy : forall idm payload, snd idm <> [] ->
-  dealer_process_incoming false (clear_last (strat_prepare SDefault true idm payload)) =
-  match clear_last payload with [] => [] | f1 :: rest' => if fempty f1 then rest' else f1 :: rest' end.
+  dealer_process_incoming false (router_wire SDefault true idm payload) =
+  match norm_flags payload with [] => [] | f1 :: rest' => if fempty f1 then rest' else f1 :: rest' end.
 Proof. exact mixed_router_manual_default_dealer_auto. Qed.
 
 (* ---- ROUTER_MANDATORY and the send decision ---- *)
@@ -188,7 +195,7 @@ Theorem C11_send_decision : forall mandatory manual conn hint m frames,
             ((conn u = CGone /\ m' = remove_peer_by_identity hint (snd idm) m) \/ (conn u = CClosed /\ m' = m))))
   | SSent u w =>
       m' = m /\ exists idm payload s, frames = idm :: payload /\ snd idm <> [] /\
-        fget (snd idm) m = Some (u, s) /\ conn u = COk /\ w = clear_last (strat_prepare s manual idm payload)
+        fget (snd idm) m = Some (u, s) /\ conn u = COk /\ w = router_wire s manual idm payload
   end.
 Proof. exact send_multipart_decision. Qed.
 (* maps and send together: the message goes to the connection of the live pipe that announced the identity *)
@@ -196,7 +203,7 @@ Theorem C11_send_reaches_true_peer : forall uri_of placeholder h p i st mandator
   distinct_hist placeholder h = true ->
   sget p (spec_run placeholder h) = Some (i, st) -> i <> [] -> conn (uri_of p) = COk ->
   router_send_multipart mandatory manual conn hint (run uri_of placeholder h) ((b, i) :: payload) =
-  (run uri_of placeholder h, SSent (uri_of p) (clear_last (strat_prepare st manual (b, i) payload))).
+  (run uri_of placeholder h, SSent (uri_of p) (router_wire st manual (b, i) payload)).
 Proof. exact send_reaches_true_peer. Qed.
 
 (* part-wise send(): fine for a known identity (above) and with ROUTER_MANDATORY; without it an unknown
@@ -224,6 +231,13 @@ Theorem C11_parts_to_req_exposes_envelope : forall mandatory conn hint m id u s 
   req_recv_multipart (wire_to u (snd (router_send_parts mandatory false conn hint (m, None) ((true, id) :: payload)))) =
   (true, id) :: delim true :: payload.
 Proof. exact parts_to_req. Qed.
+(* the same wire form results from send_multipart whenever the ROUTER does not know that the peer is a REQ
+   (Default strategy: always over inproc, where no socket type is announced) *)
+Theorem C11_default_strategy_to_req_exposes_envelope : forall idm payload, snd idm <> [] ->
+  req_recv_multipart (router_wire SDefault false idm payload) = router_wire SDefault false idm payload /\
+  router_wire SDefault false idm payload =
+    with_more idm :: match payload with [] => [delim false] | _ => delim true :: norm_flags payload end.
+Proof. exact (fun idm payload I => conj (default_strategy_to_req idm payload I) (router_wire_auto SDefault idm payload (or_introl eq_refl))). Qed.
 Theorem C11_parts_to_req_refuted :
   exists m conn id u payload,
     fget id m = Some (u, SReq) /\
@@ -241,7 +255,7 @@ Example C11_example :
   fget [65] m = Some (103, SDealer) /\ fget (placeholder_id 2) m = Some (102, SReq) /\ rget 1 m = None /\
   placeholder_id 2 = [112; 105; 112; 101; 58; 50] /\ placeholder_id 1234 = [112; 105; 112; 101; 58; 49; 50; 51; 52] /\
   router_recv false (Some TDealer) [65] (dealer_prepare false payload) = (true, [65]) :: payload /\
-  dealer_process_incoming false (clear_last (strat_prepare SDealer false (false, [65]) payload)) = payload /\
+  dealer_process_incoming false (router_wire SDealer false (false, [65]) (map no_more payload)) = payload /\
   more_ok payload /\
   (* gate: first message races ahead of the identity event; hypotheses of C11_gate_labelled / C11_gate_fifo hold *)
   let gh := [GAttach 1 None false; GArrive 1 7; GCheck 0; GPop 1; GAnnounce 1 (Some [65]) true; GArrive 1 8;
